@@ -328,6 +328,50 @@ def mutate(rng, s):
     return s[:i] + c + s[i + (1 if rng.chance(0.5) else 0):]
 
 
+def ptok(e):
+    """prefix token list of a tree for ocaml/printer_driver (the PROVED printer of Spec/Printer.v)"""
+    k = e[0]
+    if k == "num":   return ["N", "%x" % e[1], "-" if e[2] is None else str(e[2])]
+    if k == "bool":  return ["B", "1" if e[1] else "0"]
+    if k == "str":   return ["S", vlib.hx(e[2])]
+    if k == "var":   return ["V", str(e[1]), str(len(e[2]))] + [vlib.hx(n) for n in e[2]]
+    if k == "un":    return ["U", e[1]] + ptok(e[2])
+    if k == "bin":   return ["O", e[1]] + ptok(e[2]) + ptok(e[3])
+    if k == "tern":  return ["T"] + ptok(e[1]) + ptok(e[2]) + ptok(e[3])
+    if k == "slice": return ["L"] + ptok(e[1]) + ptok(e[2]) + ptok(e[3])
+    if k == "short": return ["H"] + ptok(e[1]) + ptok(e[2])
+    if k == "block": return ["K", str(len(e[1]))] + [t for x in e[1] for t in ptok(x)]
+    if k == "call":  return ["C"] + ptok(e[1]) + [str(len(e[2]))] + [t for a in e[2] for t in ptok(a)]
+    raise ValueError(k)
+
+
+PNAMES = ["x", "y", "loc", "a1", "_t", "Zz", "asmx", "truer", "f"]
+
+
+def ptree(g, d):
+    """parse-only trees over the whole expression language (strings, dotted names, calls, blocks, assignments)"""
+    r = g.r
+    if d <= 0 or r.chance(0.15):
+        k = r.weighted([("num", 35), ("str", 15), ("bool", 8), ("var", 32), ("block0", 10)])
+        if k == "num":  return g.number()
+        if k == "str":  return g.string()
+        if k == "bool": return ("bool", r.chance(0.5))
+        if k == "block0": return ("block", [])
+        return ("var", r.weighted([(0, 60), (1, 25), (2, 10), (5, 5)]),
+                [r.choice(PNAMES) for _ in range(r.weighted([(1, 60), (2, 25), (3, 15)]))])
+    k = r.weighted([("bin", 30), ("assign", 8), ("un", 10), ("tern", 12), ("tern1", 6), ("slice", 8), ("short", 8), ("call", 9), ("block", 9)])
+    sub = lambda: ptree(g, d - 1)
+    if k == "bin":    return ("bin", r.choice(ARITH + REL), sub(), sub())
+    if k == "assign": return ("bin", "Assign", sub(), sub())
+    if k == "un":     return ("un", r.choice(["Neg", "Not"]), sub())
+    if k == "tern":   return ("tern", sub(), sub(), sub())
+    if k == "tern1":  return ("tern", sub(), sub(), ("block", []))
+    if k == "slice":  return ("slice", sub(), sub(), sub())
+    if k == "short":  return ("short", sub(), sub())
+    if k == "call":   return ("call", sub(), [sub() for _ in range(r.range(0, 3))])
+    return ("block", [sub() for _ in range(r.range(0, 3))])
+
+
 def run(chk):
     chk.rule = RULE
     chk.prove()
@@ -368,6 +412,23 @@ def run(chk):
             t = ("bin", op, lit(a), lit(b))
             texts.append(show(t, False)); intent.append((tree_str(t), 2))
             dist["minimal"] += 1
+    # texts produced by the PROVED printer (Spec/Printer.v extracted: C05_parse_print_min / _full say the parser model
+    # returns exactly the printed tree) over the whole expression language; the implementation must parse them to the
+    # intended tree as well
+    vlib.extraction("ExPrinter")
+    printer = vlib.ocaml_build("printer_driver", ["printer_model"])
+    ptrees = [ptree(g, g.r.range(1, 5)) for _ in range(1000 if quick else 10000)]
+    pans = vlib.run_lines([printer], ["P " + " ".join(ptok(t)) for t in ptrees])
+    nproved = 0
+    for t, a in zip(ptrees, pans):
+        f = a.split("\t")
+        if len(f) < 5 or f[0] != "1":
+            continue
+        for depth_field, text_field, kind in ((1, 3, "minimal"), (2, 4, "full")):
+            if int(f[depth_field]) <= 50:
+                texts.append(bytes.fromhex(f[text_field]).decode("utf-8")); intent.append((tree_str(t), nops(t)))
+                dist[kind] += 1; nproved += 1
+    dist["from_proved_printer"] = nproved
     lines = ["E " + vlib.hx(s) for s in texts]
     impl = vlib.run_lines([bins["debug"] + "/expr"], lines)
     impl_rel = vlib.run_lines([bins["release"] + "/expr"], lines)
